@@ -237,7 +237,8 @@ Proof.
   - destruct (valid s p); [|exact K]. destruct t as [t|]; [|exact K].
     specialize (LK t W). destruct (lookup_reply c s t) as [rep s1]. cbn [snd] in LK.
     destruct rep; try exact LK. destruct ex; [|exact LK].
-    destruct (dget s1 i) as [d|]; [destruct (i_safe d); [destruct ok|]|]; exact LK.
+    destruct (dget s1 i) as [d|]; [destruct (i_safe d); [destruct ok|]|]; cbn [snd];
+      first [exact LK|destruct LK; apply forget_IA; assumption].
   - apply forget_IA; assumption.
   - cbn [snd]. clear LK A F. revert s K. induction l as [|x r IH]; cbn; intros s K; [exact K|].
     apply IH. destruct K. apply forget_IA; assumption.
